@@ -65,3 +65,20 @@ var AllBytes = func() []byte {
 	}
 	return b
 }()
+
+// Scribble overwrites the given slices (results a caller received earlier) and returns a function that puts the original
+// bytes back: in a broken tree such a slice may be memory the library still owns, and replays must see the same state.
+func Scribble(slices ...[]byte) (restore func()) {
+	saved := make([][]byte, len(slices))
+	for i, sl := range slices {
+		saved[i] = append([]byte(nil), sl...)
+		for k := range sl {
+			sl[k] = '#'
+		}
+	}
+	return func() {
+		for i, sl := range slices {
+			copy(sl, saved[i])
+		}
+	}
+}
